@@ -106,6 +106,7 @@ def commands(files, has_dep5, with_download_all=True):
             ["download", "LicenseRef-verif"],
             ["annotate", "--copyright", "V", "--license", "MIT", "--skip-existing", target],
             ["annotate", "--copyright", "V", "--license", "()", target], ["annotate", "--copyright", "V", "--license", "(AND 1", target],
+            ["annotate", "--merge-copyrights", "--copyright", "V", "--license", "MIT", "--year", "2021", target],
             # the header goes to the sibling whatever the file holds (the sibling may be unreadable, e.g. a directory)
             ["annotate", "--copyright", "V", "--license", "MIT", "--force-dot-license", target, "src/a.py"],
             # every identifier the covered files use and LICENSES/ lacks (nobody answers at the address the tool is pointed at: each one fails cleanly)
@@ -313,6 +314,8 @@ ODD_CONTENT = [
     b"# SPDX-FileCopyrightText: 2020 D\n# SPDX-License-Identifier: MIT" + b" OR (MIT" * 400 + b")" * 400 + b"\n",
     b"# SPDX-FileCopyrightText: 2020 D\n# SPDX-License-Identifier: MIT" + b" OR (ISC AND (MIT" * 300 + b"))" * 300 + b"\n",
     b"# SPDX-License-Identifier: " + b"(" * 1500 + b"MIT" + b")" * 1500 + b"\n# SPDX-SnippetBegin\n",
+    # notices whose prefixes the reader accepts and the table of writable prefixes does not list (merging has to cope)
+    b"# Copyright (c) 2019 Jane Doe\n# SPDX-FileCopyrightText: (c) 2018 Jane Doe\n# Copyright\t(C) 2017 V\n# SPDX-License-Identifier: MIT\nprint(1)\n",
     # identifiers that no file name or URL can carry
     "# SPDX-FileCopyrightText: 2020 U\n# SPDX-License-Identifier: Ünï-1.0\n".encode(), b"# SPDX-FileCopyrightText: 2020 L\n# SPDX-License-Identifier: " + b"a" * 300 + b"\n",
     b"# SPDX-FileCopyrightText: 2020 S\n# SPDX-License-Identifier: LicenseRef-" + b"b" * 300 + b"\n",
